@@ -104,13 +104,22 @@ func VH_C37_candidate() {
 	for i := 0; i < n; i++ {
 		from := w.addrs[sym.Choose("from", 2)]
 		id := []byte{byte(i + 1), 0x37}
-		tx := transaction.VerifNewTxV3(from, w.addrs[2], vhC37NonNeg("value"), vhC37NonNeg("stepLimit"), sym.I64("ts"), id)
+		to := w.addrs[1+sym.Choose("to", 2)] // the recipient may itself be a sender of another transaction
+		size := 2 + 2*sym.Choose("size", 2)
+		tx := transaction.VerifNewTxV3Sized(from, to, vhC37NonNeg("value"), vhC37NonNeg("stepLimit"), sym.I64("ts"), id, size)
 		tim.recent[string(id)] = sym.Bool("included_before")
 		sym.Assert(tp.Add(tx, true) == nil, "harness: the pool accepts the transaction")
 		pool = append(pool, tx)
 	}
 	maxCount := sym.Choose("maxCount", n+1) // 0 = default
-	txs, size := tp.Candidate(w, 0, maxCount)
+	maxBytes := []int{0, 2, 3, 4, 6}[sym.Choose("maxBytes", 5)] // 0 = default; otherwise a byte budget that some of the pool does not fit
+	txs, size := tp.Candidate(w, maxBytes, maxCount)
+	if maxBytes > 0 {
+		sym.Assert(size <= maxBytes, "the selection fits the byte budget of the block")
+		if len(txs) < n {
+			sym.Reach("byte-budget-binds")
+		}
+	}
 
 	if maxCount > 0 {
 		sym.Assert(len(txs) <= maxCount, "no more transactions than the block may hold are selected")
